@@ -1,7 +1,7 @@
 (* Obs.v — vocabulary of the correspondence check: recipes (how the harness built a node with
    the real library), evaluation of a recipe in the model, and comparison of what the model
    computes with what the implementation was observed to hold. *)
-From NIR Require Export Model.Graph.
+From NIR Require Export Model.Serial.
 
 Inductive nexpr :=
 | NCons (k : kind) (args : list (string * pval))
@@ -25,34 +25,54 @@ Fixpoint eval (e : nexpr) : result node :=
   end.
 
 (* ---- comparison of values: "as numbers and arrays" ------------------------------------------ *)
-(* Two values agree when they denote the same integer(s) (container, numpy-ness and integer
-   width ignored), or are structurally equal; arrays must have identical dtype, shape and
-   content token; a derived array the model cannot digest (token -1) matches on shape. *)
+(* Two values agree when
+   - both are arrays / numpy scalars with a real content token: identical dtype, shape, token;
+   - otherwise, when both denote integers: the same integer(s) (container, numpy-ness, width ignored);
+   - a derived array (token -1: the model cannot digest its bytes) matches on shape;
+   - text matches text whether str or bytes; tuples/lists elementwise; dicts as maps (key order
+     ignored: HDF5 returns members in name order). *)
+Definition real_token (v : pval) : option (string * list Z * Z) :=
+  match v with
+  | VArr d s t _ => if t =? -1 then None else Some (d, s, t)
+  | VNp d t _ => if t =? -1 then None else Some (d, [], t)
+  | _ => None
+  end.
+
+Definition is_scalar_like (v : pval) : bool :=
+  match v with
+  | VArr _ [] _ _ | VNp _ _ _ | VFloat _ | VInt _ | VBool _ => true
+  | _ => false
+  end.
+
 Fixpoint val_agree (a b : pval) {struct a} : bool :=
-  match num_view a, num_view b with
-  | Some x, Some y => numv_eqb x y
+  match real_token a, real_token b with
+  | Some (d1, s1, t1), Some (d2, s2, t2) => String.eqb d1 d2 && shape_eqb s1 s2 && (t1 =? t2)
   | _, _ =>
-    match a, b with
-    | VArr d1 s1 t1 _, VArr d2 s2 t2 _ =>
-        shape_eqb s1 s2 && ((t1 =? -1) || (t2 =? -1) || (String.eqb d1 d2 && (t1 =? t2)))
-    (* a 0-d array and a numpy scalar of the same dtype and bytes are the same number *)
-    | VArr d1 [] t1 _, VNp d2 t2 _ | VNp d1 t1 _, VArr d2 [] t2 _ =>
-        (t1 =? -1) || (t2 =? -1) || (String.eqb d1 d2 && (t1 =? t2))
-    | VTuple l1, VTuple l2 | VList l1, VList l2 | VTuple l1, VList l2 | VList l1, VTuple l2 =>
-        (fix go (l1 l2 : list pval) : bool :=
-           match l1, l2 with
-           | [], [] => true
-           | x :: r1, y :: r2 => val_agree x y && go r1 r2
-           | _, _ => false
-           end) l1 l2
-    | VDict l1, VDict l2 =>
-        (fix go (l1 l2 : list (string * pval)) : bool :=
-           match l1, l2 with
-           | [], [] => true
-           | (k1, x) :: r1, (k2, y) :: r2 => String.eqb k1 k2 && val_agree x y && go r1 r2
-           | _, _ => false
-           end) l1 l2
-    | _, _ => pval_eqb a b
+    match num_view a, num_view b with
+    | Some x, Some y => numv_eqb x y
+    | _, _ =>
+      match a, b with
+      | VFloat x, VFloat y => x =? y
+      | VArr _ s1 _ _, VArr _ s2 _ _ => shape_eqb s1 s2
+      | VStr x, VStr y | VStr x, VBytes y | VBytes x, VStr y | VBytes x, VBytes y => String.eqb x y
+      | VTuple l1, VTuple l2 | VList l1, VList l2 | VTuple l1, VList l2 | VList l1, VTuple l2 =>
+          (fix go (l1 l2 : list pval) : bool :=
+             match l1, l2 with
+             | [], [] => true
+             | x :: r1, y :: r2 => val_agree x y && go r1 r2
+             | _, _ => false
+             end) l1 l2
+      | VDict l1, VDict l2 =>
+          Nat.eqb (length l1) (length l2) &&
+          (fix go (l1 : list (string * pval)) : bool :=
+             match l1 with
+             | [] => true
+             | (k1, x) :: r1 =>
+               match assoc k1 l2 with Some y => val_agree x y | None => false end && go r1
+             end) l1
+      | VNone, VNone => true
+      | _, _ => is_scalar_like a && is_scalar_like b
+      end
     end
   end.
 
@@ -104,15 +124,84 @@ Fixpoint bad_from {A} (f : A -> bool) (l : list A) (i : nat) : list nat :=
   end.
 Definition bad_indices {A} (f : A -> bool) (l : list A) : list nat := bad_from f l 0.
 
+(* order-insensitive comparison for graphs that went through a file (children come back in HDF5
+   name order): children and graph-level types compared as maps *)
+Definition gty_equiv (a b : option (list (string * ty))) : bool :=
+  match a, b with
+  | None, None => true
+  | Some x, Some y =>
+    Nat.eqb (length x) (length y) &&
+    forallb (fun p => match assoc (fst p) y with Some t => ty_eqb (snd p) t | None => false end) x
+  | _, _ => false
+  end.
+
+Fixpoint node_equiv (a b : node) {struct a} : bool :=
+  match a, b with
+  | Leaf k1 f1 i1 o1, Leaf k2 f2 i2 o2 =>
+      kind_eqb k1 k2 && val_agree (VDict f1) (VDict f2) && ty_eqb i1 i2 && ty_eqb o1 o2
+  | Graph c1 e1 i1 o1 m1, Graph c2 e2 i2 o2 m2 =>
+      Nat.eqb (length c1) (length c2) &&
+      (fix go (l1 : list (string * node)) : bool :=
+         match l1 with
+         | [] => true
+         | (k1, x) :: r1 =>
+           match assoc k1 c2 with Some y => node_equiv x y | None => false end && go r1
+         end) c1
+      && edges_eqb e1 e2 && gty_equiv i1 i2 && gty_equiv o1 o2 && val_agree m1 m2
+  | _, _ => false
+  end.
+
+Fixpoint h5_agree (a b : h5) {struct a} : bool :=
+  match a, b with
+  | H5Group m1, H5Group m2 =>
+      Nat.eqb (length m1) (length m2) &&
+      (fix go (l1 : list (string * h5)) : bool :=
+         match l1 with
+         | [] => true
+         | (k1, x) :: r1 =>
+           match assoc k1 m2 with Some y => h5_agree x y | None => false end && go r1
+         end) m1
+  | H5Str e1 s1, H5Str e2 s2 => String.eqb e1 e2 && String.eqb s1 s2
+  | H5Data v1, H5Data v2 =>
+      val_agree v1 v2 &&
+      match v1, v2 with     (* datasets must agree on dtype and shape even when the content is derived *)
+      | VArr d1 s1 _ _, VArr d2 s2 _ _ => (String.eqb d1 d2 || String.eqb d1 "?" || String.eqb d2 "?") && shape_eqb s1 s2
+      | _, _ => true
+      end
+  | H5Strs e1 r1, H5Strs e2 r2 => String.eqb e1 e2 && list_eqb (list_eqb String.eqb) r1 r2
+  | _, _ => false
+  end.
+
 (* ---- generic cases shared by several properties ------------------------------------------------ *)
 Definition raised (o : outcome) : bool := match o with Finished => false | Raised _ => true end.
+
+Inductive op := OInfer | ODict | OFile.
+
+Definition apply_op (o : op) (g : node) : result node :=
+  match o with
+  | OInfer => let '(g', oc) := infer_types g in
+              match oc with Finished => Ok g' | Raised e => Err e end
+  | ODict => from_dict (to_dict g)
+  | OFile => do t <- write g; read t
+  end.
+
+Fixpoint apply_ops (ops : list op) (g : node) : result node :=
+  match ops with
+  | [] => Ok g
+  | o :: r => do g' <- apply_op o g; apply_ops r g'
+  end.
 
 Inductive gcase :=
 | CBuild (e : nexpr) (obs : result node)            (* build with the constructors *)
 | CInfer (e : nexpr) (obs : result (node * bool))   (* build, infer_types(): graph after, raised? *)
 | CInfer2 (e : nexpr) (obs : result (node * bool))  (* ... twice *)
 | CCheck (e : nexpr) (obs : result bool)            (* build, _check_types(): True / raised *)
-| CFromList (es : list nexpr) (obs : result node).  (* NIRGraph.from_list(nodes...) *)
+| CFromList (es : list nexpr) (obs : result node)   (* NIRGraph.from_list(nodes...) *)
+| COps (e : nexpr) (ops : list op) (obs : result node)   (* build, then a history of operations *)
+| CToDict (e : nexpr) (obs : result pval)           (* build, to_dict() *)
+| CWrite (e : nexpr) (obs : result h5)              (* build, nir.write: raw tree of the file *)
+| CFromDict (d : pval) (obs : result node)          (* nir.dict2NIRNode(d) *)
+| CRead (t : h5) (obs : result node).               (* nir.read of a hand-encoded file *)
 
 Definition gcheck (c : gcase) : bool :=
   match c with
@@ -128,4 +217,42 @@ Definition gcheck (c : gcase) : bool :=
       res_agree Bool.eqb (do g <- eval e; check_types g) obs
   | CFromList es obs =>
       res_agree node_agree (do ns <- mapM eval es; from_list ns) obs
+  | COps e ops obs =>
+      res_agree node_equiv (do g <- eval e; apply_ops ops g) obs
+  | CToDict e obs =>
+      res_agree val_agree (do g <- eval e; Ok (VDict (to_dict g))) obs
+  | CWrite e obs =>
+      res_agree h5_agree (do g <- eval e; write g) obs
+  | CFromDict d obs =>
+      res_agree node_equiv (match d with VDict l => from_dict l | _ => Err TypeError end) obs
+  | CRead t obs =>
+      res_agree node_equiv (read t) obs
+  end.
+
+(* ---- for diagnostics: what the model computed / what was observed, in one printable type ---- *)
+Inductive gres := RNode (r : result node) | RNodeB (r : result (node * bool)) | RBool (r : result bool)
+                | RVal (r : result pval) | RH5 (r : result h5).
+
+Definition gmodel (c : gcase) : gres :=
+  match c with
+  | CBuild e _ => RNode (eval e)
+  | CInfer e _ => RNodeB (do g <- eval e; let '(g', oc) := infer_types g in Ok (g', raised oc))
+  | CInfer2 e _ => RNodeB (do g <- eval e; let '(g1, _) := infer_types g in
+                           let '(g2, oc) := infer_types g1 in Ok (g2, raised oc))
+  | CCheck e _ => RBool (do g <- eval e; check_types g)
+  | CFromList es _ => RNode (do ns <- mapM eval es; from_list ns)
+  | COps e ops _ => RNode (do g <- eval e; apply_ops ops g)
+  | CToDict e _ => RVal (do g <- eval e; Ok (VDict (to_dict g)))
+  | CWrite e _ => RH5 (do g <- eval e; write g)
+  | CFromDict d _ => RNode (match d with VDict l => from_dict l | _ => Err TypeError end)
+  | CRead t _ => RNode (read t)
+  end.
+
+Definition gobs (c : gcase) : gres :=
+  match c with
+  | CBuild _ o | CFromList _ o | COps _ _ o | CFromDict _ o | CRead _ o => RNode o
+  | CInfer _ o | CInfer2 _ o => RNodeB o
+  | CCheck _ o => RBool o
+  | CToDict _ o => RVal o
+  | CWrite _ o => RH5 o
   end.
